@@ -84,6 +84,7 @@ class Contract:
     class_map: dict = field(default_factory=dict)    # static class instantiation, e.g. KFACBaseLayer -> KFACEigenLayer
     theories: tuple = ()                             # opt-in background facts (e.g. 'strided_ranges')
     ghost_sets: list = field(default_factory=list)   # [(target 'obj.ghost_field', value expr)]: ghost update at normal exit
+    fresh_result: bool = False                        # the returned container is newly built (callers may mutate it)
 
 
 REGISTRY: dict[str, Contract] = {}
@@ -110,7 +111,7 @@ def contract(key, *, props=(), params=None, closure=None, result=None, requires=
              raises=(), may_raise=(), modifies=(), loops=None, mode='contract', self_cls=None,
              lets=None, trusted=False, note='', float_mode='R', covers=(), locals=None, exsures=(),
              unknown_may_raise=False, hints=(), ranks=None, definitions=(), class_map=None, theories=(),
-             ghost_sets=()):
+             ghost_sets=(), fresh_result=False):
     props = tuple(props)
     lp = {}
     for k, v in (loops or {}).items():
@@ -134,7 +135,7 @@ def contract(key, *, props=(), params=None, closure=None, result=None, requires=
         exsures=[(e, Clause(f'exsures:{e}:{l}', t, props)) for e, l, t in exsures],
         unknown_may_raise=unknown_may_raise, hints=_clauses(hints, props), ranks=dict(ranks or {}),
         definitions=_clauses(definitions, props), class_map=dict(class_map or {}), theories=tuple(theories),
-        ghost_sets=[tuple(g) for g in ghost_sets],
+        ghost_sets=[tuple(g) for g in ghost_sets], fresh_result=fresh_result,
     )
     REGISTRY[key] = c
     return c
